@@ -499,6 +499,42 @@ func runC04(c *Ctx) {
 		}
 	}
 	c.Floor("R5.agentkey", nAg, 4, "agent List/Remove/Add call sites in agent/ssh")
+	// every returned certificate stays handed over: within one operation of the agent-key package nothing that removes
+	// identities can run after an identity was added (a removal step inside the add loop deletes what the previous
+	// iterations added, and the run still reports success)
+	removes := func(call ssa.CallInstruction) bool {
+		cm := call.Common()
+		if cm.IsInvoke() {
+			return strings.Contains(cm.Method.FullName(), "ssh/agent.") && (cm.Method.Name() == "Remove" || cm.Method.Name() == "RemoveAll")
+		}
+		if h := w.helperOf(call); h != nil {
+			for _, g := range w.ReachableRepo([]*ssa.Function{h}, false) {
+				for _, cv := range callsIn(g) {
+					if gm := cv.Common(); gm.IsInvoke() && strings.Contains(gm.Method.FullName(), "ssh/agent.") && (gm.Method.Name() == "Remove" || gm.Method.Name() == "RemoveAll") {
+						return true
+					}
+				}
+			}
+		}
+		return false
+	}
+	for _, fn := range w.RepoFuncs() {
+		if fn.Pkg == nil || fn.Pkg.Pkg.Path() != RepoMod+"/agent/ssh" {
+			continue
+		}
+		for _, a := range callsIn(fn) {
+			am := a.Common()
+			if !am.IsInvoke() || !strings.Contains(am.Method.FullName(), "ssh/agent.") || am.Method.Name() != "Add" {
+				continue
+			}
+			reach := ReachableAvoiding(a, nil)
+			for _, r := range callsIn(fn) {
+				if r != a && removes(r) {
+					c.Check(!reach(r), "R5.agentkey", shortFn(fn)+"|no removal after an add", w.Pos(r.Pos()), "the removal step cannot run after an identity was added in the same operation", "a step that removes identities ("+shortName(calleeName(r))+") is reachable after agent.Add in the same operation: certificates added earlier in the loop are deleted again")
+				}
+			}
+		}
+	}
 }
 
 // loopBack: is `later` the same loop's next iteration of an earlier call (reachable only around a back edge)?
